@@ -106,6 +106,31 @@ CHECKS = {
             '{&,|,^}, int masks on either side, ~ with ~~x==x and ~x==-x-LSB, De Morgan on all code pairs; boundary/walking-bit/seed codes at '
             '16,31,32,33,63,64,65,100,128 bits; every ordered pair of different word lengths 1..8 must raise for &, |, ^ separately.',
             'Trusted: Python integer bit operations. array op array is not claimed and not judged.', 'DESIGN.md section 4 C13'),
+    'C14': (TECH_E1,
+            'No explored shift violates: expand mode x<<n == x*2^n and x>>n == x/2^n exactly with no flag; trunc/keep: format unchanged, >> is '
+            'floor(code/2^n), << is code*2^n or (when not representable) the clamped or wrapped code; shift by 0 keeps the value (and the format '
+            'outside expand mode); operand unchanged: every code of formats n_word<=5 (thorough 6), n_frac {0, n/2} x 3 shifting modes x 2 overflow '
+            'modes x both directions x n in 0..n_word+3, whole-format arrays, all ordered code pairs as arrays (n_word<=3/4); boundary codes up to '
+            '32 bits.', 'Trusted: Python integer shifts and Fractions.', 'DESIGN.md section 4 C14'),
+    'C15': (TECH_E1,
+            'No explored reduction differs from the same reduction on exact Fractions: 12 shapes up to 3x3 / length 8 x 34 formats (n_word in '
+            '{1,2,3,4,8,12}) x extreme fills (quick: all {lo,hi} assignments up to size 4 plus structured extreme patterns; thorough: all 2^size) x '
+            'sum, cumsum, prod, cumprod, max, min, sort, clip, transpose, T, trace, diagonal by numpy-function and method routes, axis None and '
+            'each axis; dot / matmul over 13 shape pairs x all ordered format pairs (mixed signedness) x extreme fills; no overflow/underflow flag '
+            'on the accumulating ones; the two routes must agree.',
+            'Trusted: NumPy reductions over object arrays of Fractions (NumPy orchestrates, arithmetic is exact).', 'DESIGN.md section 4 C15'),
+    'C16': (TECH_E1,
+            'No explored comparison or conversion differs from the exact stored value: all ordered pairs of formats n_word<=4 (thorough 5), n_frac '
+            '-1..n_word+1 x every code pair x 6 operators, operands built raw and by value (integer value type), Fxp/number and number/Fxp; adjacent '
+            'values across formats up to 24 bits; get_val, astype(float), float(), astype(int), int(), bool(), raw(), uraw(), x() for every code of '
+            'every format n_word<=8, arrays and scalars.', 'Trusted: Fractions.', 'DESIGN.md section 4 C16'),
+    'C17': (TECH_E1,
+            'No explored scaled store/read differs from the affine model: formats n_word<=3 (thorough 4), n_frac -2..n_word+2 x 10 modes x 11 scales '
+            '(incl. 3, 3/2, 5, negative) x 8 biases x every quarter-LSB unscaled target over 3x the range; int- and float-typed parameters; 4 routes; '
+            'int64-array carrier; boundary targets at 8/12/16 bits with single-element stores (per-element flags); read-back, upper/lower/precision, '
+            'flags; raw re-write + same-format resize history; inferred formats for 164 dyadic targets.',
+            'Trusted: reference quantizer/inference; a case is admitted only if every float intermediate is exact (checked with Fractions).',
+            'DESIGN.md section 4 C17'),
 }
 
 NOT_YET = {}
